@@ -126,7 +126,8 @@ pub fn run(ctx: &Ctx) {
             }
         }
     }
-    for lead in [vec![], vec![0x02u8], vec![0xffu8]] {
+    let full_push: Vec<u8> = std::iter::once(push_op).chain(0x10..0x18).collect();
+    for lead in [vec![], vec![0x02u8], vec![0xffu8], full_push.clone(), [full_push.clone(), vec![0x02], full_push.clone()].concat()] {
         for len in 0..=8usize {
             for tail in [vec![], vec![0x02u8], vec![push_op]] {
                 let mut v = lead.clone();
@@ -212,11 +213,55 @@ pub fn run(ctx: &Ctx) {
                 && m.ops().count() == n
                 && m.ops().last() == ops.last().copied();
             let rebuilt: BytecodeMapped<asm::Op, Vec<u8>> = ops.iter().copied().collect();
-            Some(ok && rebuilt.bytecode() == &bytes[..])
+            let same = rebuilt.bytecode() == &bytes[..] && rebuilt.op_indices() == m.op_indices()
+                && [0usize, 1, 113, 114, 115, 227, 228, 229, n / 2, n - 1].iter().all(|&i| i >= n || rebuilt.op(i) == Some(ops[i])) && rebuilt.op(n).is_none();
+            Some(ok && same)
         });
         match r {
             Ok(Some(true)) => ctx.pass(),
             other => ctx.fail(&id, "mapped bytecode == parsed operation list for programs with more than 255 / 65535 operations or bytes", format!("{name}: {:?}", other)),
+        }
+    }
+    // a mapping that is extended operation by operation after it was built (push_op) must stay equivalent to the list
+    for (pi, prefix) in [vec![], vec![asm::Op::from(asm::Access::ThisAddress)], vec![asm::Access::ThisAddress.into(), S::Pop.into()], vec![p(3), S::Pop.into()]].into_iter().enumerate() {
+        for (ti, tail) in [vec![p(0x0202020202020202), S::Pop.into(), p(1)], vec![S::Dup.into(), p(-1), Alu::Add.into()], vec![p(0x6262626262626262u64 as i64)]].into_iter().enumerate() {
+            let id = format!("push-op/{pi}/{ti}");
+            if !ctx.want(&id) {
+                continue;
+            }
+            let mut all = prefix.clone();
+            all.extend(tail.iter().copied());
+            let r = std::panic::catch_unwind(std::panic::AssertUnwindSafe(|| {
+                let mut mapped: BytecodeMapped<asm::Op, Vec<u8>> = prefix.iter().copied().collect();
+                for o in &tail {
+                    mapped.push_op(*o);
+                }
+                let st = (PreState::default(), PreState::default());
+                let cost = |_: &asm::Op| 1u64;
+                let listed: Vec<asm::Op> = mapped.ops().collect();
+                let mut a = Vm::default();
+                let mut b = Vm::default();
+                for w in [5, 6] {
+                    a.stack.push(w).unwrap();
+                    b.stack.push(w).unwrap();
+                }
+                let ra = a.exec_ops(&all, access(), &st, &cost, GasLimit { per_yield: 4096, total: 300 }).map_err(|e| format!("{e}"));
+                let rb = b.exec_bytecode(&mapped, access(), &st, &cost, GasLimit { per_yield: 4096, total: 300 }).map_err(|e| format!("{e}"));
+                let sa: Vec<Word> = a.stack.clone().into();
+                let sb: Vec<Word> = b.stack.clone().into();
+                if listed != all {
+                    Some(format!("ops() {:?}", listed))
+                } else if ra != rb || sa != sb || a.pc != b.pc {
+                    Some(format!("list {:?} stack {:?} pc {} | mapped {:?} stack {:?} pc {}", ra, sa, a.pc, rb, sb, b.pc))
+                } else {
+                    None
+                }
+            }));
+            match r {
+                Err(_) => ctx.fail(&id, "a mapping extended with push_op never panics where the list does not", format!("PANIC: prefix {:?} then push_op {:?}", prefix, tail)),
+                Ok(Some(d)) => ctx.fail(&id, "building the mapped form from operations (collect, then push_op) stays equivalent to the operation list", format!("prefix {:?} then push_op {:?}: {d}", prefix, tail)),
+                Ok(None) => ctx.pass(),
+            }
         }
     }
     // a few hand-written longer programs: forward jump past the end, repeat loop ending in Push, compute children running to the end
